@@ -5,9 +5,13 @@ Property theorems only; lemmas are in `Lemmas/Serde2026*.lean`.  Models: `ClvmMo
 (transcription of `src/serde_2026/{ser,de,strategy,mod}.rs`), `ClvmModel/Intern.lean`,
 `ClvmModel/Varint.lean` (C21), `ClvmModel/Serde/Classic.lean`, `ClvmModel/Serde/Backref.lean`.
 
-`allocCap` is the largest buffer the process can allocate (parameter of the decoder model): the
-decoder resizes its read buffer to the *declared* atom length before reading (finding I), and a
-request beyond `allocCap` is the outcome `Err.Abort`.
+History: until /repo commit 090b8ec the decoder resized its read buffer to the *declared* atom length
+before reading (finding I): the model had an outcome `Err.Abort` for a declared length above an
+allocatable bound `allocCap`, totality was proved only for `max_atom_len ≤ allocCap`
+(`de_total_partial`) and `de_abort_witness` showed the 17-byte blob
+`fdff3230323601fc200000000000410102` (declared length 2^45, `max_atom_len = usize::MAX`) aborting.
+With the repair (atoms are read through `take(length).read_to_end`) the outcome is gone from the model
+and `de_total` below is the full statement; the blob is kept as an `example`.
 -/
 import ClvmProofs.Lemmas.Serde2026Magic
 import ClvmProofs.Lemmas.Serde2026MagicBr
@@ -48,51 +52,36 @@ def Returns {α : Type} (r : Except Err α) : Prop :=
   | .ok _ => True
   | .error e => e = .SerializationError ∨ e = .OutOfMemory ∨ e = .TooManyAtoms ∨ e = .TooManyPairs
 
-/-- the C20 totality statement for the decoder, at full strength (all byte strings, all
-`max_atom_len`, every allocatable bound).  **False of the current code** (`de_abort_witness`). -/
+/-- the C20 totality statement for the decoder (all byte strings, all `max_atom_len`, both modes) -/
 def DecoderTotal : Prop :=
-  ∀ (allocCap : Nat) (blob : Bytes) (maxAtomLen : Nat) (strict : Bool),
-    Returns (deserialize2026 allocCap blob maxAtomLen strict)
+  ∀ (blob : Bytes) (maxAtomLen : Nat) (strict : Bool), Returns (deserialize2026 blob maxAtomLen strict)
 
-/-- **Decoder outcomes.** The decoder never panics; the only outcome besides a result and the benign
-errors is the process abort, and that needs `max_atom_len` to exceed what can be allocated. -/
-theorem de_outcomes (allocCap : Nat) (blob : Bytes) (maxAtomLen : Nat) (strict : Bool) :
-    Returns (deserialize2026 allocCap blob maxAtomLen strict) ∨
-    ((∃ m, deserialize2026 allocCap blob maxAtomLen strict = .error (.Abort m)) ∧ allocCap < maxAtomLen) := by
+/-- **The decoder is total**: for every byte string, every `max_atom_len` and both modes it returns a
+tree, `SerializationError`, or a limit of the caller's allocator — never a panic, never an abort. -/
+theorem de_total : DecoderTotal := by
+  intro blob maxAtomLen strict
   unfold deserialize2026
-  cases h : deserializeFromStream allocCap Intern.Counters.new blob maxAtomLen strict with
-  | ok r => left; simp [Returns]
-  | error e =>
-    rcases deserializeFromStream_err h with he | ⟨⟨m, rfl⟩, hlt⟩
-    · left; exact he
-    · right; exact ⟨⟨m, rfl⟩, hlt⟩
+  cases h : deserializeFromStream Intern.Counters.new blob maxAtomLen strict with
+  | ok r => simp [Returns]
+  | error e => exact deserializeFromStream_err h
 
-/-- **Totality outside the defect region** (`max_atom_len ≤ allocCap`: the precise bound under which
-the allocate-before-read cannot abort). -/
-theorem de_total_partial (allocCap : Nat) (blob : Bytes) (maxAtomLen : Nat) (strict : Bool)
-    (hbound : maxAtomLen ≤ allocCap) : Returns (deserialize2026 allocCap blob maxAtomLen strict) := by
-  rcases de_outcomes allocCap blob maxAtomLen strict with h | ⟨_, hlt⟩
-  · exact h
-  · omega
+/-- the same for the stream entry points with any allocator state -/
+theorem de_stream_total (ctr : Intern.Counters) (inp : Bytes) (maxAtomLen : Nat) (strict : Bool) :
+    Returns (deserializeFromStream ctr inp maxAtomLen strict) ∧ Returns (deserializeBody ctr inp maxAtomLen strict) := by
+  constructor
+  · cases h : deserializeFromStream ctr inp maxAtomLen strict with
+    | ok r => simp [Returns]
+    | error e => exact deserializeFromStream_err h
+  · cases h : deserializeBody ctr inp maxAtomLen strict with
+    | ok r => simp [Returns]
+    | error e => exact deserializeBody_err h
 
-/-- finding I: one group, declared length 2^45, `max_atom_len = usize::MAX` -/
+/-- the former reproducer of finding I: one group, declared length 2^45 -/
 def blobI : Bytes :=
   [0xfd, 0xff, 0x32, 0x30, 0x32, 0x36, 0x01, 0xfc, 0x20, 0x00, 0x00, 0x00, 0x00, 0x00, 0x41, 0x01, 0x02]
 
-/-- **Witness**: with 2^40 allocatable bytes the 17-byte blob aborts the process, while the length
-probe rejects it — so `DecoderTotal` is false of the code as it is. -/
-theorem de_abort_witness :
-    deserialize2026 (2 ^ 40) blobI (2 ^ 64 - 1) true
-        = .error (.Abort "buf.resize(length, 0): memory allocation failed") ∧
-    serializedLength2026 blobI (2 ^ 64 - 1) true = .error .SerializationError ∧
-    ¬ DecoderTotal := by
-  refine ⟨by rfl, by rfl, ?_⟩
-  intro h
-  have := h (2 ^ 40) blobI (2 ^ 64 - 1) true
-  have e : deserialize2026 (2 ^ 40) blobI (2 ^ 64 - 1) true
-      = .error (.Abort "buf.resize(length, 0): memory allocation failed") := by rfl
-  rw [e] at this
-  simp [Returns] at this
+example : deserialize2026 blobI (2 ^ 64 - 1) true = .error .SerializationError := by rfl
+example : serializedLength2026 blobI (2 ^ 64 - 1) true = .error .SerializationError := by rfl
 
 /-- **The length probe is total**: a length or `SerializationError`, for every byte string. -/
 theorem len_total (buf : Bytes) (maxAtomLen : Nat) (strict : Bool) :
@@ -103,9 +92,9 @@ theorem len_total (buf : Bytes) (maxAtomLen : Nat) (strict : Bool) :
   | error e => right; rw [serializedLength2026_err h]
 
 /-- **Probe = bytes consumed**, whenever decoding succeeds (slices are shorter than 2^64 bytes). -/
-theorem len_eq_consumed (allocCap : Nat) (blob : Bytes) (maxAtomLen : Nat) (strict : Bool) (t : Tree) (n : Nat)
+theorem len_eq_consumed (blob : Bytes) (maxAtomLen : Nat) (strict : Bool) (t : Tree) (n : Nat)
     (hlen : blob.length < 2 ^ 64)
-    (h : deserialize2026Consumed allocCap blob maxAtomLen strict = .ok (t, n)) :
+    (h : deserialize2026Consumed blob maxAtomLen strict = .ok (t, n)) :
     serializedLength2026 blob maxAtomLen strict = .ok n := by
   unfold deserialize2026Consumed at h
   split at h
@@ -117,13 +106,13 @@ theorem len_eq_consumed (allocCap : Nat) (blob : Bytes) (maxAtomLen : Nat) (stri
 /-! ### round trip -/
 
 /-- The C20 round-trip statement at full strength (every well-formed source DAG, every level, both
-modes, every `max_atom_len` that admits the tree's atoms and can be allocated; the caller's allocator
+modes, every `max_atom_len` that admits the tree's atoms; the caller's allocator
 is a fresh `Allocator::new()`).  **Not proved in full**: see `de_ser_partial`. -/
 def RoundTrip : Prop :=
-  ∀ (d : Intern.Dag) (root level : Nat) (strict : Bool) (allocCap maxAtomLen : Nat) (blob : Bytes),
+  ∀ (d : Intern.Dag) (root level : Nat) (strict : Bool) (maxAtomLen : Nat) (blob : Bytes),
     d.WF → root < d.size → serialize2026 d root level = .ok blob →
-    (∀ b : Bytes, Intern.Subtree (.atom b) (Intern.denote d root) → b.length ≤ maxAtomLen) → maxAtomLen ≤ allocCap →
-    deserialize2026 allocCap blob maxAtomLen strict = .ok (Intern.denote d root)
+    (∀ b : Bytes, Intern.Subtree (.atom b) (Intern.denote d root) → b.length ≤ maxAtomLen) →
+    deserialize2026 blob maxAtomLen strict = .ok (Intern.denote d root)
 
 /-- … and for the length probe (`serialized_length_serde_2026` of a blob followed by anything). -/
 def LenOfSer : Prop :=
@@ -142,24 +131,24 @@ Proved from C21 `read_write`.  What is missing for `RoundTrip`: that the instruc
 order, ends with the stack `[denote d root]` (C24 `intern_preserves` supplies the tree; the sort being a
 permutation and the emit/execute simulation are not proved; they are exercised by the SER/DE streams
 and the `serde2026_roundtrip` oracle). -/
-theorem de_ser_partial (allocCap maxAtomLen : Nat) (strict : Bool) (ctr : Intern.Counters) (rest : Bytes)
+theorem de_ser_partial (maxAtomLen : Nat) (strict : Bool) (ctr : Intern.Counters) (rest : Bytes)
     (groups : List (Nat × List Bytes)) (is : List Int) (cg tbl ci ib : Bytes)
-    (hok : ∀ g ∈ groups, GroupOK maxAtomLen allocCap g)
+    (hok : ∀ g ∈ groups, GroupOK maxAtomLen g)
     (h1 : wv (groups.length : Int) = .ok cg) (h2 : writeGroups groups = .ok tbl)
     (h3 : wv (is.length : Int) = .ok ci) (h4 : writeInstructions is = .ok ib) (hne : is ≠ [])
     (hroom : Room ctr (groupBytes groups) (groupAtomCount groups)) :
-    deserializeFromStream allocCap ctr (magic ++ (cg ++ tbl ++ ci ++ ib) ++ rest) maxAtomLen strict =
+    deserializeFromStream ctr (magic ++ (cg ++ tbl ++ ci ++ ib) ++ rest) maxAtomLen strict =
       match execList (groups.flatMap (·.2)) is
           { ctr := bumpAtoms ctr (groupBytes groups) (groupAtomCount groups), pairs := [], stack := [] } with
       | .error e => .error e
       | .ok s => finish rest s :=
-  deserialize_written allocCap maxAtomLen strict ctr rest groups is cg tbl ci ib hok h1 h2 h3 h4 hne hroom
+  deserialize_written maxAtomLen strict ctr rest groups is cg tbl ci ib hok h1 h2 h3 h4 hne hroom
 
 /-- **Length of a written blob, wire level**: under the same hypotheses, whenever that decode succeeds
 the probe applied to the blob followed by arbitrary bytes returns the blob's length. -/
-theorem len_ser_partial (allocCap maxAtomLen : Nat) (strict : Bool) (ctr c' : Intern.Counters) (rest : Bytes)
+theorem len_ser_partial (maxAtomLen : Nat) (strict : Bool) (ctr c' : Intern.Counters) (rest : Bytes)
     (groups : List (Nat × List Bytes)) (is : List Int) (cg tbl ci ib : Bytes) (t : Tree)
-    (hok : ∀ g ∈ groups, GroupOK maxAtomLen allocCap g)
+    (hok : ∀ g ∈ groups, GroupOK maxAtomLen g)
     (h1 : wv (groups.length : Int) = .ok cg) (h2 : writeGroups groups = .ok tbl)
     (h3 : wv (is.length : Int) = .ok ci) (h4 : writeInstructions is = .ok ib) (hne : is ≠ [])
     (hroom : Room ctr (groupBytes groups) (groupAtomCount groups))
@@ -170,7 +159,7 @@ theorem len_ser_partial (allocCap maxAtomLen : Nat) (strict : Bool) (ctr c' : In
       | .ok s => finish rest s) = .ok (t, rest, c')) :
     serializedLength2026 (magic ++ (cg ++ tbl ++ ci ++ ib) ++ rest) maxAtomLen strict
       = .ok (magic ++ (cg ++ tbl ++ ci ++ ib)).length := by
-  have hd := de_ser_partial allocCap maxAtomLen strict ctr rest groups is cg tbl ci ib hok h1 h2 h3 h4 hne hroom
+  have hd := de_ser_partial maxAtomLen strict ctr rest groups is cg tbl ci ib hok h1 h2 h3 h4 hne hroom
   rw [hdec] at hd
   have := Serde2026.len_eq_consumed hlen hd
   rw [this]
